@@ -65,6 +65,7 @@ def parseAct (a th : Nat) (name detail : String) : Option Act :=
   | "vac.unlinked" => (parseKey detail).map (Act.vacUnlinked t)
   | "rd.open" => some (.rdOpen t)
   | "rd.batch" => some (.rdBatch t (natOf detail))
+  | "scan.batch" => some (.scanBatch t (natOf detail))
   | "cmd.done" => some (.cmdDone t)
   | "panic" => some (.panic t)
   | _ => none
@@ -190,6 +191,7 @@ def renderEv (before after : Sys) (a : Act) : String :=
   | .vacUnlinked _ key => "vac.unlinked " ++ keyStr key
   | .rdOpen _ => "rd.open"
   | .rdBatch _ n => "rd.batch " ++ toString n
+  | .scanBatch _ n => "scan.batch " ++ toString n
   | .cmdDone _ =>
       (match after.outs.getLast? with
        | some (_, _, r) => "cmd.done " ++ resStr r
